@@ -37,6 +37,14 @@ Definition no_writes (obs : ers_obs) : bool :=
   | _, _, _, _, _ => false
   end.
 
+(** What is observed of a written status went through the API's JSON: time stamps have a resolution of one second.  The
+    reconcile itself works with the instant it read from the clock (the model too); the comparison truncates. *)
+Definition trunc_time (t : time) : time := (t / second) * second.
+Definition trunc_cond (c : cond) : cond :=
+  MkCond (c_type c) (c_status c) (trunc_time (c_trans c)) (trunc_time (c_update c)) (c_reason c) (c_message c).
+Definition trunc_ers_status (st : ers_status) : ers_status := with_conds st (map trunc_cond (rs_conds st)).
+Definition trunc_eds_status (st : eds_status) : eds_status := with_eds_conds st (map trunc_cond (es_conds st)).
+
 Definition expected_status_write (sn : ers_snapshot) (pl : ers_plan) : option ers_status :=
   match pl_status pl with
   | Some st => if ers_status_eqb st (r_status (sn_rs sn)) then None else Some st
@@ -55,7 +63,7 @@ Definition ers_plan_matches (sn : ers_snapshot) (pl : ers_plan) (obs : ers_obs) 
   nameset_eqb (pl_creates pl) (map fst (ob_creates obs)) && new_pods_match pl obs &&
   nameset_eqb (pl_deletes pl ++ pl_cleanup pl) (ob_pod_deletes obs) &&
   nameset_eqb (pl_label_add pl) (ob_label_adds obs) && nameset_eqb (pl_label_del pl) (ob_label_dels obs) &&
-  option_eqb ers_status_eqb (expected_status_write sn pl) (ob_status obs) &&
+  option_eqb ers_status_eqb (option_map trunc_ers_status (expected_status_write sn pl)) (ob_status obs) &&
   Bool.eqb (pl_requeue pl) (ob_requeue obs) && (pl_requeue_after pl =? ob_requeue_after obs) &&
   Bool.eqb (pl_error pl) (ob_error obs).
 
@@ -72,7 +80,7 @@ Definition write_matches (w : eds_write) (o : obs_write) : bool :=
                               (N.eqb (e_tmpl_hash e) no_name || N.eqb (e_tmpl_hash e) (e_tmpl_hash e')) && annots_eqb (e_annots e) (e_annots e')
   | WCreateRs r, OCreateRs r' => new_rs_eqb r r'
   | WDeleteRs n, ODeleteRs n' => N.eqb n n'
-  | WStatus st, OStatus st' => eds_status_eqb st st'
+  | WStatus st, OStatus st' => eds_status_eqb (trunc_eds_status st) st'
   | WSpec h ann, OUpdate e' => N.eqb h (e_tmpl_hash e') && annots_eqb ann (e_annots e')
   | _, _ => false
   end.
@@ -115,7 +123,7 @@ Definition diag_ers (sn : ers_snapshot) (obs : ers_obs) : list N :=
       code_if (nameset_eqb (pl_deletes pl ++ pl_cleanup pl) (ob_pod_deletes obs)) 4 ++
       code_if (nameset_eqb (pl_label_add pl) (ob_label_adds obs)) 5 ++
       code_if (nameset_eqb (pl_label_del pl) (ob_label_dels obs)) 6 ++
-      code_if (option_eqb ers_status_eqb (expected_status_write sn pl) (ob_status obs)) 7 ++
+      code_if (option_eqb ers_status_eqb (option_map trunc_ers_status (expected_status_write sn pl)) (ob_status obs)) 7 ++
       code_if (Bool.eqb (pl_requeue pl) (ob_requeue obs)) 8 ++
       code_if (pl_requeue_after pl =? ob_requeue_after obs) 9 ++
       code_if (Bool.eqb (pl_error pl) (ob_error obs)) 10
